@@ -84,12 +84,19 @@ fn main() {
             "bfs" => qcheck::replay(&doc),
             "sweep" => replay_sweep(&doc),
             _ if doc.part.starts_with("rx-restock") => vlab::replay::replay_dfs(&doc, &c05::run_rx_restock),
+            _ if doc.part.starts_with("driver-notify:") => {
+                let name = doc.part.split(':').nth(1).unwrap_or("").to_string();
+                match vlab::drivers::ALL_KINDS.into_iter().find(|k| k.name() == name) {
+                    Some(k) => vlab::replay::replay_dfs(&doc, &move || vlab::c05_drivers::run_driver_notify(k, vlab::drivers::TKind::Model)),
+                    None => 2,
+                }
+            }
             _ => vlab::replay::replay_dfs(&doc, &|| c05::run_wait_pop::<4>()),
         };
         std::process::exit(rc);
     }
     let mut c = Check::new("C05", args.tier, "model_checking");
-    c.rule = "(a) exhaustive sweep of should_notify() against the specification's vring_need_event over (avail_idx, avail_event) pairs and all batch sizes up to N; (b) BFS histories including set_dev_notify with the device-visible suppression state checked after every step; (c) deviation-free DFS over device servicing policies for the blocking helper with the device co-simulated inside notify and inside the busy-wait hook. Distinct = must-notify input pairs / distinct states / distinct observation signatures".into();
+    c.rule = "(a) exhaustive sweep of should_notify() against the specification's vring_need_event over (avail_idx, avail_event) pairs and all batch sizes up to N; (b) BFS histories including set_dev_notify with the device-visible suppression state checked after every step; (c) deviation-free DFS over device servicing policies for the blocking helper with the device co-simulated inside notify and inside the busy-wait hook; (e) for every driver, every subset of its queues with notifications suppressed (flag form, or a far-away event index) and polled by the device while the others are served on notification only, a script touching every queue with a per-queue check after every operation (available buffers on an unsuppressed queue must have been announced; a queue with the suppression flag set must not be notified). Distinct = must-notify input pairs / distinct states / distinct observation signatures".into();
     c.assumptions = qcheck::standard_assumptions();
     c.assumptions.push("the missing store->load barrier between publishing avail.idx and reading the suppression word is a hardware-ordering matter invisible to a sequentially consistent explorer; not claimed".into());
     let full = args.tier == Tier::Thorough;
@@ -113,5 +120,12 @@ fn main() {
     let cfg = DfsConfig::new("rx-restock+wait_for_event", 0);
     let st = dfs::explore(&cfg, &c05::run_rx_restock);
     c.add_dfs("rx-restock+wait_for_event", &st);
+    // (e) notification discipline of every driver, queue by queue, for every set of suppressed queues.
+    for k in vlab::drivers::ALL_KINDS {
+        let part = format!("driver-notify:{}:model", k.name());
+        let cfg = DfsConfig::new(&part, 0);
+        let st = dfs::explore(&cfg, &move || vlab::c05_drivers::run_driver_notify(k, vlab::drivers::TKind::Model));
+        c.add_dfs(&part, &st);
+    }
     c.finish();
 }
